@@ -27,8 +27,12 @@ def run_seed(name, props):
             return name, {'*': ('patch does not apply', '')}
         out = {}
         for p in props:
-            r = subprocess.run([os.path.join(VERIF, 'check'), p, '--repo', os.path.join(d, 'repo'), '--no-evidence'], cwd=VERIF,
-                               capture_output=True, text=True)
+            try:
+                r = subprocess.run([os.path.join(VERIF, 'check'), p, '--repo', os.path.join(d, 'repo'), '--no-evidence'], cwd=VERIF,
+                                   capture_output=True, text=True, timeout=1500)
+            except subprocess.TimeoutExpired:
+                out[p] = (2, 'timeout after 1500 s')
+                continue
             rules = sorted(set(re.findall(r': (R[0-9]+\.[\w.]+) in ', r.stdout)))
             errs = [l for l in r.stdout.splitlines() if l.startswith('ANALYSIS-ERROR')]
             out[p] = (r.returncode, ','.join(rules) if r.returncode == 1 else ('; '.join(errs)[:160] if r.returncode == 2 else ''))
